@@ -61,9 +61,11 @@ func startProc(argv []string) *proc {
 	}
 	limit := 90 * time.Second
 	for _, a := range argv {
-		if strings.HasPrefix(a, "-t:") {
-			if ms, err := strconv.Atoi(a[3:]); err == nil {
-				limit = time.Duration(ms)*time.Millisecond*3 + 5*time.Second
+		for _, pre := range []string{"-t:", "--tlimit-per="} {
+			if strings.HasPrefix(a, pre) {
+				if ms, err := strconv.Atoi(a[len(pre):]); err == nil {
+					limit = time.Duration(ms)*time.Millisecond*3 + 5*time.Second
+				}
 			}
 		}
 	}
@@ -248,6 +250,63 @@ func (s *Solver) Check(roots []*Term, want []*Term) (string, map[string]string) 
 		model[w.Name] = strings.TrimSpace(rest[:end])
 	}
 	return verdict, model
+}
+
+// askAlt sends a self-contained query to another solver process (kept alive under the given name)
+func (s *Solver) askAlt(name string, argv []string, script string, names []string, nroots int) string {
+	if s.alts == nil {
+		s.alts = map[string]*proc{}
+	}
+	ap := s.alts[name]
+	if ap == nil || ap.dead {
+		ap = startProc(argv)
+		s.alts[name] = ap
+	}
+	var ab strings.Builder
+	ab.WriteString("(reset)\n(set-option :produce-models true)\n")
+	if argv[0] == "cvc5" {
+		ab.WriteString("(set-logic ALL)\n")
+	}
+	ab.WriteString(script)
+	for i := 0; i < nroots; i++ {
+		fmt.Fprintf(&ab, "(assert %s)\n", names[i])
+	}
+	ab.WriteString("(check-sat)\n(echo \"<<done>>\")\n")
+	io.WriteString(ap.in, ab.String())
+	av := "unknown"
+	for _, l := range ap.readUntilDone() {
+		if strings.Contains(l, "(error") {
+			return "error: " + l
+		}
+		if l == "sat" || l == "unsat" {
+			av = l
+		}
+	}
+	return av
+}
+
+var xchecked sync.Map
+
+// CrossCheck re-asks a query that the primary solver answered "unsat" on z3 5.1 and on cvc5 (3 s each).
+// It returns the number of second opinions obtained and, if one of them contradicts the verdict, which.
+func (s *Solver) CrossCheck(roots []*Term) (opinions int, contradiction string) {
+	script, names, _ := Script(roots)
+	for _, alt := range [][]string{{"z3-new", "-in", "-t:3000"}, {"cvc5", "--incremental", "--produce-models", "--tlimit-per=3000", "--lang=smt2"}} {
+		v := s.askAlt(alt[0]+"-x", alt, script, names, len(roots))
+		switch {
+		case v == "unsat":
+			opinions++
+		case v == "sat" || strings.HasPrefix(v, "error"):
+			var ab strings.Builder
+			ab.WriteString(script)
+			for i := range roots {
+				fmt.Fprintf(&ab, "(assert %s)\n", names[i])
+			}
+			ab.WriteString("(check-sat)\n")
+			return opinions, alt[0] + " answers " + v + " where z3 answered unsat\n" + ab.String()
+		}
+	}
+	return opinions, ""
 }
 
 // readUntilDone reads the solver's answer; a watchdog kills a solver that stays silent past its
